@@ -28,6 +28,23 @@ impl Coster_ for ValueCoster {
     fn cost(&self, v: &u64) -> i64 { (*v % 7) as i64 + 1 }
 }
 
+/// index = the key itself; conflict hash 0 (the transparent builder's) or a non-zero function of the key (like the default builder)
+struct OracleKb(bool);
+impl crate::KeyBuilder for OracleKb {
+    type Key = u64;
+    fn hash_index<Q>(&self, key: &Q) -> u64 where u64: core::borrow::Borrow<Q>, Q: core::hash::Hash + Eq + ?Sized {
+        let mut h = crate::TransparentHasher::default();
+        key.hash(&mut h);
+        std::hash::Hasher::finish(&h)
+    }
+    fn hash_conflict<Q>(&self, key: &Q) -> u64 where u64: core::borrow::Borrow<Q>, Q: core::hash::Hash + Eq + ?Sized {
+        if !self.0 { return 0; }
+        let mut h = crate::TransparentHasher::default();
+        key.hash(&mut h);
+        std::hash::Hasher::finish(&h).wrapping_mul(31).wrapping_add(7)
+    }
+}
+
 #[test]
 fn cache_at_quiescence_matches_model() {
     if !only("cache_at_quiescence_matches_model") { return; }
@@ -38,8 +55,9 @@ fn cache_at_quiescence_matches_model() {
         let ignore_internal = rng.below(4) != 0;
         let veto = rng.below(3) == 0;
         let events = Arc::new(StdMutex::new(Vec::new()));
-        let c: Cache<u64, u64, TransparentKeyBuilder<u64>, ValueCoster, Mono, Rec> = Cache::builder(200, max_cost)
-            .set_key_builder(TransparentKeyBuilder::<u64>::default())
+        let nz_conflict = rng.below(2) == 0;
+        let c: Cache<u64, u64, OracleKb, ValueCoster, Mono, Rec> = Cache::builder(200, max_cost)
+            .set_key_builder(OracleKb(nz_conflict))
             .set_coster(ValueCoster)
             .set_update_validator(Mono(veto))
             .set_callback(Rec(events.clone()))
@@ -53,10 +71,13 @@ fn cache_at_quiescence_matches_model() {
         let nkeys = 4 + rng.below(12);
         // model: what the last accepted write under each key was (value, charged cost); None = may be absent
         let mut last: std::collections::HashMap<u64, (u64, i64)> = Default::default();
+        let mut has_ttl: std::collections::HashMap<u64, bool> = Default::default(); // deadline of the last applied write: 1 h or none
+        let mut c04_applies = true; // false once the workload stopped fitting (an entry of its own exceeded max_cost, or the total did)
         let mut accepted: Vec<u64> = Vec::new(); // every value handed to an insert that returned true (values are unique)
         let mut next_val = 1000u64 * (round + 1);
+        let mut low_val = 1000u64 * (round + 1) - 1; // a second, decreasing stream of unique values: these are what a monotone validator vetoes
         let mut lookups = 0u64;
-        let mut script: Vec<String> = vec![format!("Cache(num_counters=200, max_cost={}, ignore_internal_cost={}, monotone_validator={})", max_cost, ignore_internal, veto)];
+        let mut script: Vec<String> = vec![format!("Cache(num_counters=200, max_cost={}, ignore_internal_cost={}, monotone_validator={}, conflict_hash={})", max_cost, ignore_internal, veto, if nz_conflict { "31k+7" } else { "0" })];
         let ctx = |s: &Vec<String>| { let n = s.len(); format!("{} .. {}", s[0], s[n.saturating_sub(10).max(1)..].join("; ")) };
         macro_rules! bad { ($clause:expr, $props:expr, $f:expr, $obs:expr, $req:expr) => {{ fail("cache_at_quiescence_matches_model", $clause, $props, $f, ctx(&script), $obs, $req); let _ = c.close(); return; }}; }
         for _ in 0..(15 + rng.below(40)) {
@@ -66,7 +87,7 @@ fn cache_at_quiescence_matches_model() {
             let prev_val = c.get(&k).map(|v| *v.value());
             if prev_val.is_some() || true { lookups += 1; }
             match op {
-                0 | 1 => { c.remove(&k); script.push(format!("remove({})", k)); last.remove(&k); }
+                0 | 1 => { c.remove(&k); script.push(format!("remove({})", k)); last.remove(&k); has_ttl.remove(&k); }
                 2 => {
                     next_val += 1;
                     let cost = 1 + rng.below(3) as i64;
@@ -74,16 +95,19 @@ fn cache_at_quiescence_matches_model() {
                     script.push(format!("insert_if_present({}, {}, cost {}) -> {}", k, next_val, cost, r));
                     if !resident_before && r { bad!("C09:cache.insert.if-present-on-absent-is-false", &["C09"], "Cache::try_insert_in", "returned true on an absent key".into(), "false".into()); }
                     let vetoed = veto && prev_val.map_or(false, |p| next_val < p);
-                    if r { accepted.push(next_val); if !vetoed { last.insert(k, (next_val, internal(cost))); } }
+                    if r { accepted.push(next_val); if !vetoed { last.insert(k, (next_val, internal(cost))); has_ttl.insert(k, false); } }
                 }
                 3 => { let mc = 4 + rng.below(40) as i64; c.update_max_cost(mc); script.push(format!("update_max_cost({})", mc)); }
                 4 => {
-                    if rng.below(4) == 0 { c.clear().unwrap(); script.push("clear()".into()); last.clear(); accepted.clear();
+                    if rng.below(4) == 0 { c.clear().unwrap(); script.push("clear()".into()); last.clear(); accepted.clear(); has_ttl.clear(); c04_applies = true;
                         // the clear signal travels on its own channel and the processor picks among ready channels at random: let it
                         // consume the signal before going on, so that this oracle stays on the decided (quiescent) side of C11
                         // (the race itself is probed by `insert_after_clear_is_kept`)
                         while !c.clear_tx.is_empty() { std::thread::yield_now(); }
-                        c.wait().unwrap();
+                        // ... and let the cleaner finish draining: a Wait marker may be answered by the cleaner itself, which then
+                        // loops once more before returning, so one wait() does not prove the processor is back in its main loop
+                        // (soak seeds 11 and 17 hit exactly that window: finding F10 again, not a C04/C07 failure)
+                        for _ in 0..3 { c.wait().unwrap(); std::thread::sleep(Duration::from_millis(2)); }
                         events.lock().unwrap().clear(); lookups = 0;
                         if c.len() != 0 || (c.policy.max_cost() - c.policy.cap()) != 0 { bad!("C11:store.clear.empty", &["C11", "C06"], "Cache::clear", format!("len={} used={}", c.len(), (c.policy.max_cost() - c.policy.cap())), "0 / 0".into()); }
                         if c.metrics.get_hits() != Some(0) || c.metrics.get_keys_added() != Some(0) { bad!("C11:store.clear.empty", &["C11", "C17"], "Cache::clear", "metrics not reset".into(), "all counters 0".into()); }
@@ -91,13 +115,18 @@ fn cache_at_quiescence_matches_model() {
                 }
                 _ => {
                     next_val += 1;
+                    let stale = veto && rng.below(4) == 0;
+                    let fresh_val = next_val;
+                    let next_val = if stale { low_val -= 1; low_val } else { fresh_val };
                     let cost = if rng.below(5) == 0 { 0 } else { 1 + rng.below(5) as i64 };
-                    let r = c.insert(k, next_val, cost);
-                    script.push(format!("insert({}, {}, cost {}) -> {}", k, next_val, cost, r));
+                    let with_ttl = rng.below(3) == 0;
+                    let r = if with_ttl { c.insert_with_ttl(k, next_val, cost, Duration::from_secs(3600)) } else { c.insert(k, next_val, cost) };
+                    script.push(format!("insert{}({}, {}, cost {}) -> {}", if with_ttl { "_with_ttl[1h]" } else { "" }, k, next_val, cost, r));
                     if r { accepted.push(next_val); }
                     let charged = internal(if cost == 0 { (next_val % 7) as i64 + 1 } else { cost });
                     let vetoed = veto && prev_val.map_or(false, |p| next_val < p);
-                    if r && !vetoed { last.insert(k, (next_val, charged)); }
+                    if charged > c.policy.max_cost() { c04_applies = false; }
+                    if r && !vetoed { last.insert(k, (next_val, charged)); has_ttl.insert(k, with_ttl); }
                 }
             }
             if let Err(e) = c.wait() { bad!("C06:glue.ok", &["C06"], "Cache::wait", format!("wait failed: {}", e), "Ok".into()); }
@@ -106,7 +135,7 @@ fn cache_at_quiescence_matches_model() {
             let used = mc - c.policy.cap();
             let charges: std::collections::BTreeMap<u64, i64> = (0..nkeys).filter(|kk| c.policy.contains(kk)).map(|kk| (kk, c.policy.cost(&kk))).collect();
             let mut resident: std::collections::BTreeMap<u64, u64> = Default::default();
-            for kk in 0..nkeys { if c.store.expiration(&kk).is_some() { let v = c.store.get(&kk, 0).map(|v| *v.value()); resident.insert(kk, v.unwrap_or(0)); } }
+            for kk in 0..nkeys { if c.store.expiration(&kk).is_some() { let v = c.store.get(&kk, c.key_to_hash.build_key(&kk).1).map(|v| *v.value()); resident.insert(kk, v.unwrap_or(0)); } }
             if resident.keys().collect::<Vec<_>>() != charges.keys().collect::<Vec<_>>() {
                 bad!("C06:glue.new.agree", &["C06", "C02"], "CacheProcessor::handle_item", format!("resident {:?} != charged {:?}", resident.keys().collect::<Vec<_>>(), charges.keys().collect::<Vec<_>>()), "resident entries == charged entries".into()); }
             if c.len() != resident.len() { bad!("C06:glue.new.agree", &["C06"], "Cache::len", format!("len()={} resident={}", c.len(), resident.len()), "equal".into()); }
@@ -119,6 +148,14 @@ fn cache_at_quiescence_matches_model() {
                         if charges.get(kk) != Some(lc) { bad!("C16:glue.new.charge", &["C16"], "CacheProcessor::handle_item", format!("key {} charged {:?}", kk, charges.get(kk)), format!("{}", lc)); }
                     }
                     None => { if !accepted.contains(v) { bad!("C02:store.get.same-key", &["C02"], "Cache::get", format!("key {} holds {} which was never accepted", kk, v), "a value written under that key".into()); } }
+                }
+            }
+            // C03/C09: the deadline is that of the last applied (not vetoed) write
+            for (kk, _) in &resident {
+                if let (Some(_), Some(t_)) = (last.get(kk), has_ttl.get(kk)) {
+                    let ttl = c.get_ttl(kk);
+                    let ok = match (t_, ttl) { (true, Some(d)) => d <= Duration::from_secs(3600) && d > Duration::from_secs(3500), (false, Some(d)) => d == Duration::MAX, _ => false };
+                    if !ok { bad!("C09:store.update.veto", &["C09", "C03"], "ShardedMap::try_update", format!("key {}: get_ttl = {:?}", kk, ttl), format!("{}", if *t_ { "about 1 h (last applied write had a TTL)" } else { "Duration::MAX (last applied write had no TTL)" })); }
                 }
             }
             // C08: every accepted value is resident xor appeared in exactly one callback
@@ -138,7 +175,8 @@ fn cache_at_quiescence_matches_model() {
                 bad!("C17:add.cost-ledger", &["C17"], "LFUPolicy::add", format!("cost_added-cost_evicted={} used={}", m.get_cost_added().unwrap().wrapping_sub(m.get_cost_evicted().unwrap()) as i64, used), "equal".into()); }
             // C04: nothing is lost while everything fits
             let total: i64 = last.values().map(|x| x.1).sum();
-            if total <= mc && m.get_sets_dropped() == Some(0) && m.get_sets_rejected() == Some(0) && m.get_keys_evicted() == Some(0) {
+            if total > mc { c04_applies = false; }
+            if c04_applies && total <= mc && m.get_sets_dropped() == Some(0) && m.get_sets_rejected() == Some(0) && m.get_keys_evicted() == Some(0) {
                 for (kk, (lv, _)) in &last { if resident.get(kk) != Some(lv) { bad!("C07,C04:add.room", &["C04", "C07"], "Cache::insert", format!("key {} -> {:?}", kk, resident.get(kk)), format!("{} (everything fits: total {} <= max_cost {})", lv, total, mc)); } }
             }
         }
